@@ -68,6 +68,9 @@ Lemma IExt_dim : forall (o : opts) (st : wstate) (n : cnum) (u : str) (p : pos),
   IExt (@nil tok) st (write_maybe_rpx_dimension o st n u p).
 Proof. intros. unfold write_maybe_rpx_dimension. destruct (str_eqb u s_rpx); apply IExt_tok_at. Qed.
 
+Lemma eidc_rpx_tok : forall o g n u, eidc [mke g (rpx_tok o n u)] = [].
+Proof. intros. unfold rpx_tok. destruct (str_eqb u s_rpx); reflexivity. Qed.
+
 (* the identifier writer against the specification's case table *)
 Lemma IExt_class : forall (o : opts) (st : wstate) (s : str) (p : pos) (ic : bool) (g : gap),
   IExt (eidc (if ic then
@@ -119,14 +122,18 @@ Proof.
     replace (eidc (if m && (is_plus_minus prev' || is_plus_minus (first_noncomment r)) then [mke GReq (TWs sp)] else []))
       with (@nil tok) by (destruct (m && (is_plus_minus prev' || is_plus_minus (first_noncomment r))); reflexivity).
     cbn [app is_ws andb]. destruct in_calc; cbn [negb].
-    + eapply IExt_eq; [eapply IExt_trans; [|apply Hr]|reflexivity].
-      destruct (is_plus_minus (first_noncomment r) || is_plus_minus prev); [apply (IExt_tok_at st (TWs sp)) | apply IExt_refl].
+    + set (st1 := if is_plus_minus (first_noncomment r) || is_plus_minus prev
+                  then tok_at st (TWs sp) (node_pos (Leaf (TWs w) p)) None else st).
+      assert (E : IExt [] st st1).
+      { unfold st1. destruct (is_plus_minus (first_noncomment r) || is_plus_minus prev); [apply (IExt_tok_at st (TWs sp)) | apply IExt_refl]. }
+      eapply IExt_eq; [eapply IExt_trans; [exact E | apply Hr] | reflexivity].
     + apply Hr.
   - replace (is_ws (node_tok x) && negb in_calc) with false by (rewrite Ew; reflexivity).
     rewrite eidc_app.
     destruct x as [t p | open p body endp closed].
     + cbn [node_tok node_pos] in *. eapply IExt_trans; [|apply Hr].
-      destruct t; try discriminate; try (apply IExt_tok_at). apply IExt_dim.
+      destruct t; try discriminate; try (apply IExt_tok_at).
+      eapply IExt_eq; [apply IExt_dim | symmetry; apply eidc_rpx_tok].
     + cbn [node_tok node_pos] in *. destruct (shaped_blk _ _ _ _ _ _ Hs) as [_ [Hsb _]].
       eapply IExt_trans; [|apply Hr].
       rewrite !eidc_app, val_node_block.
@@ -158,10 +165,10 @@ Proof.
     + rewrite (Hlead eq_refl). apply Hr. reflexivity.
     + cbn [is_curly orb fst snd]. apply Hr. discriminate.
   - replace (is_ws (node_tok x) && lead) with false by (rewrite Ew; reflexivity).
-    set (st0 := if is_curly (node_tok x) || is_ws (node_tok x) then st
+    set (st0 := if is_curly (node_tok x) || false then st
                 else if hw then tok_sp st (TWs sp) (node_pos x) None else st).
     assert (H0 : IExt [] st st0).
-    { unfold st0. destruct (is_curly (node_tok x) || is_ws (node_tok x)); [apply IExt_refl|].
+    { unfold st0. destruct (is_curly (node_tok x) || false); [apply IExt_refl|].
       destruct hw; [apply (IExt_tok_sp st (TWs sp)) | apply IExt_refl]. }
     rewrite eidc_app.
     eapply IExt_eq; [eapply IExt_trans; [exact H0|]|reflexivity].
@@ -170,9 +177,10 @@ Proof.
       destruct t; try discriminate; cbn [fst snd];
         try (eapply IExt_trans; [apply IExt_tok_at | apply Hr; discriminate]).
       * eapply IExt_trans; [apply IExt_class | apply Hr; discriminate].
-      * eapply IExt_trans; [apply IExt_tok_at | apply Hr; discriminate].
-      * eapply IExt_trans; [apply IExt_dim | apply Hr; discriminate].
+      * eapply IExt_trans; [eapply IExt_eq; [apply IExt_dim | symmetry; apply eidc_rpx_tok] | apply Hr; discriminate].
     + cbn [node_tok node_pos fst snd] in *. destruct (shaped_blk _ _ _ _ _ _ Hs) as [Ho [Hsb _]].
+      replace (match open with TDelim c0 => c0 =? 46 | _ => false end) with false
+        by (destruct open; try discriminate Ho; reflexivity).
       eapply IExt_trans; [|apply Hr; discriminate].
       rewrite !eidc_app. cbn [andb].
       eapply IExt_trans; [apply (IExt_tok_at st0 open)|].
@@ -195,6 +203,18 @@ Definition rule_spec (o : opts) (prelude body : list node) (first ws cmt ic : bo
   sel_list o (sel_node o) false prelude first ws cmt ic ++
   [mke GFree TCurly] ++ val_list o (val_node o) false body None false ++ [mke GFree TCloseCurly].
 
+Local Ltac blk_case o r body body0 st0 p IHr H0 Hsb T :=
+  let A := fresh "A" in let B := fresh "B" in
+  destruct (IHr false false
+              (tok_at (cn_body o body0 true false false (tok_at st0 T p None)) (close_of T) p None)
+              false false false) as [A B]; split; [exact A|];
+  rewrite <- app_assoc, eidc_app; cbn [andb is_numeric];
+  fold (rule_spec o r body false false false false);
+  eapply IExt_eq; [eapply IExt_trans; [exact H0|]; eapply IExt_trans; [|exact B]|reflexivity];
+  rewrite !eidc_app, sel_node_block;
+  eapply IExt_trans; [apply IExt_tok_at|]; eapply IExt_trans; [|apply IExt_tok_at];
+  apply IExt_cn_body; [exact Hsb | reflexivity].
+
 Theorem class_exact_rule : forall o prelude pb body e c rest ic hw st first ws cmt,
   shaped prelude = true -> shaped body = true -> no_curly prelude = true ->
   fst (qr_loop o (prelude ++ Block TCurly pb body e c :: rest) ic hw st) = rest /\
@@ -203,7 +223,7 @@ Theorem class_exact_rule : forall o prelude pb body e c rest ic hw st first ws c
 Proof.
   intros o prelude. induction prelude as [|x r IH]; intros pb body e c rest ic hw st first ws cmt Hs Hb Hn.
   - cbn [app qr_loop node_tok is_comment is_curly is_ws orb fst snd]. split; [reflexivity|].
-    unfold rule_spec. cbn [sel_list app]. rewrite !eidc_app.
+    unfold rule_spec. cbn [sel_list]. rewrite !eidc_app. change (eidc []) with (@nil tok). cbn [app].
     eapply IExt_trans; [apply (IExt_tok_at st TCurly)|].
     eapply IExt_trans; [|apply IExt_tok_at]. apply IExt_rpx_body. exact Hb.
   - destruct (shaped_cons _ _ Hs) as [Hsx Hsr].
@@ -220,10 +240,10 @@ Proof.
     + destruct x as [t p|t p b e0 c0]; cbn [node_tok] in Ew;
         [|destruct (shaped_blk _ _ _ _ _ _ Hs) as [Ho _]; destruct (open_ok_not_wsc _ Ho) as [_ [_ Hc]]; rewrite Hc in Ew; discriminate].
       destruct (is_ws_inv _ Ew) as [w ->]. cbn [is_curly is_ws orb node_tok]. apply IHr.
-    + set (st0 := if is_curly (node_tok x) || is_ws (node_tok x) then st
+    + set (st0 := if is_curly (node_tok x) || false then st
                   else if hw then tok_sp st (TWs sp) (node_pos x) None else st).
       assert (H0 : IExt [] st st0).
-      { unfold st0. destruct (is_curly (node_tok x) || is_ws (node_tok x)); [apply IExt_refl|].
+      { unfold st0. destruct (is_curly (node_tok x) || false); [apply IExt_refl|].
         destruct hw; [apply (IExt_tok_sp st (TWs sp)) | apply IExt_refl]. }
       destruct x as [t p | open p body0 endp closed].
       * cbn [node_tok node_pos] in *.
@@ -239,16 +259,11 @@ Proof.
         -- apply Step. apply IExt_class.
         -- destruct (c0 =? 46); apply Step; apply IExt_tok_sp.
       * cbn [node_tok node_pos] in *. destruct (shaped_blk _ _ _ _ _ _ Hs) as [Ho [Hsb _]].
-        destruct open; try discriminate; try (cbn [no_curly] in Hn; discriminate);
-          (destruct (IHr false false
-                       (tok_at (cn_body o body0 true false false (tok_at st0 _ p None)) (close_of _) p None)
-                       false false false) as [A B]; split; [exact A|];
-           rewrite <- app_assoc, eidc_app; cbn [andb];
-           fold (rule_spec o r body false false false false);
-           eapply IExt_eq; [eapply IExt_trans; [exact H0|]; eapply IExt_trans; [|exact B]|reflexivity];
-           rewrite !eidc_app, sel_node_block;
-           eapply IExt_trans; [apply IExt_tok_at|]; eapply IExt_trans; [|apply IExt_tok_at];
-           apply IExt_cn_body; [exact Hsb | reflexivity]).
+        destruct open; try discriminate Ho.
+        -- blk_case o r body body0 st0 p IHr H0 Hsb (TFunc s).
+        -- blk_case o r body body0 st0 p IHr H0 Hsb TParen.
+        -- blk_case o r body body0 st0 p IHr H0 Hsb TSquare.
+        -- cbn [no_curly] in Hn. discriminate Hn.
 Qed.
 
 (* the pinned form: normal output, starting from any state that writes to the normal output *)
